@@ -45,97 +45,323 @@ Fixpoint qpow2 (n : nat) : Q := match n with O => 1 | S k => 2 * qpow2 k end.
 Lemma qpow2_ge1 n : 1 <= qpow2 n.
 Proof. induction n as [|n IH]; simpl; lra. Qed.
 
+(* ================= the probes of the bracket expansion (no F involved) ================= *)
+Local Open Scope Z_scope.
+(* the points at which expand_right / expand_left evaluate F, and how the loop ends *)
+Fixpoint rprobes (fuel : nat) (hi delta : Z) : list Z :=
+  match fuel with
+  | O => []
+  | S f => match f64_round_Z (hi + delta) with None => [] | Some h => h :: rprobes f h (2 * delta) end
+  end.
+Fixpoint rend (fuel : nat) (hi delta : Z) : bres :=
+  match fuel with
+  | O => BFuel
+  | S f => match f64_round_Z (hi + delta) with None => BInf false | Some h => rend f h (2 * delta) end
+  end.
+Fixpoint lprobes (fuel : nat) (lo delta : Z) : list Z :=
+  match fuel with
+  | O => []
+  | S f => match f64_round_Z (lo - delta) with None => [] | Some h => h :: lprobes f h (2 * delta) end
+  end.
+Fixpoint lend (fuel : nat) (lo delta : Z) : bres :=
+  match fuel with
+  | O => BFuel
+  | S f => match f64_round_Z (lo - delta) with None => BInf true | Some h => lend f h (2 * delta) end
+  end.
+
+(* float64 doubling from 0 with xdelta = 1: 1, 3, ..., 2^53 - 1, 2^54, ..., 2^1023, then overflow —
+   computed with the rounding function of the model, compared with the closed form *)
+(* (proved by one VM conversion each; the proof terms stay small: eq_refl with a vm cast) *)
+Lemma go_rprobes : rprobes go_expand_fuel 0 1 = go_probes.
+Proof. vm_cast_no_check (@eq_refl (list Z) go_probes). Qed.
+Lemma go_rend : rend go_expand_fuel 0 1 = BInf false.
+Proof. vm_cast_no_check (@eq_refl bres (BInf false)). Qed.
+Lemma go_lprobes : lprobes go_expand_fuel 0 1 = go_probes_neg.
+Proof. vm_cast_no_check (@eq_refl (list Z) go_probes_neg). Qed.
+Lemma go_lend : lend go_expand_fuel 0 1 = BInf true.
+Proof. vm_cast_no_check (@eq_refl bres (BInf true)). Qed.
+Theorem go_probes_closed_form :
+  rprobes go_expand_fuel 0 1 = go_probes /\ rend go_expand_fuel 0 1 = BInf false /\
+  lprobes go_expand_fuel 0 1 = go_probes_neg /\ lend go_expand_fuel 0 1 = BInf true.
+Proof. exact (conj go_rprobes (conj go_rend (conj go_lprobes go_lend))). Qed.
+
+Definition probe_closed (k : Z) : Z := if k <=? 53 then 2 ^ k - 1 else 2 ^ k.
+Theorem go_probes_values : go_probes = map (fun k => probe_closed (Z.of_nat k)) (seq 1 1023).
+Proof. vm_cast_no_check (@eq_refl (list Z) go_probes). Qed.
+
+(* strictly increasing, each step at most doubles (+2), nothing beyond the last probe *)
+Fixpoint chain_up (prev : Z) (ps : list Z) : bool :=
+  match ps with
+  | [] => true
+  | p :: r => (prev <? p) && (p <=? 2 * prev + 2) && (p <=? go_last_probe) && chain_up p r
+  end.
+Fixpoint chain_down (prev : Z) (ps : list Z) : bool :=
+  match ps with
+  | [] => true
+  | p :: r => (p <? prev) && (2 * prev - 2 <=? p) && (- go_last_probe <=? p) && chain_down p r
+  end.
+Lemma go_probes_chain_1 : chain_up 0 go_probes = true.
+Proof. vm_cast_no_check (@eq_refl bool true). Qed.
+Lemma go_probes_chain_2 : chain_down 0 go_probes_neg = true.
+Proof. vm_cast_no_check (@eq_refl bool true). Qed.
+Lemma go_probes_chain_3 : existsb (Z.eqb go_last_probe) go_probes = true.
+Proof. vm_cast_no_check (@eq_refl bool true). Qed.
+Lemma go_probes_chain_4 : existsb (Z.eqb (- go_last_probe)) go_probes_neg = true.
+Proof. vm_cast_no_check (@eq_refl bool true). Qed.
+Lemma go_probes_chain : chain_up 0 go_probes = true /\ chain_down 0 go_probes_neg = true /\
+  existsb (Z.eqb go_last_probe) go_probes = true /\ existsb (Z.eqb (- go_last_probe)) go_probes_neg = true.
+Proof. exact (conj go_probes_chain_1 (conj go_probes_chain_2 (conj go_probes_chain_3 go_probes_chain_4))). Qed.
+
+Lemma chain_up_cons prev p r : chain_up prev (p :: r) = true ->
+  prev < p /\ p <= 2 * prev + 2 /\ p <= go_last_probe /\ chain_up p r = true.
+Proof.
+  cbn [chain_up]. rewrite !Bool.andb_true_iff. intros [[[A B] C] D].
+  apply Z.ltb_lt in A. apply Z.leb_le in B. apply Z.leb_le in C. auto.
+Qed.
+Lemma chain_down_cons prev p r : chain_down prev (p :: r) = true ->
+  p < prev /\ 2 * prev - 2 <= p /\ - go_last_probe <= p /\ chain_down p r = true.
+Proof.
+  cbn [chain_down]. rewrite !Bool.andb_true_iff. intros [[[A B] C] D].
+  apply Z.ltb_lt in A. apply Z.leb_le in B. apply Z.leb_le in C. auto.
+Qed.
+Lemma chain_up_adjacent : forall ps prev l1 l2 a b, chain_up prev ps = true ->
+  prev :: ps = l1 ++ a :: b :: l2 -> prev <= a /\ a < b /\ b <= 2 * a + 2 /\ b <= go_last_probe.
+Proof.
+  induction ps as [|p r IH]; intros prev l1 l2 a b C E.
+  - destruct l1 as [|x [|x' l1]]; discriminate.
+  - destruct (chain_up_cons _ _ _ C) as (C1 & C2 & C3 & C4). destruct l1 as [|x l1].
+    + injection E as -> -> _. lia.
+    + injection E as -> E. destruct (IH p l1 l2 a b C4 E) as (? & ? & ? & ?). lia.
+Qed.
+Lemma chain_down_adjacent : forall ps prev l1 l2 a b, chain_down prev ps = true ->
+  prev :: ps = l1 ++ a :: b :: l2 -> a <= prev /\ b < a /\ 2 * a - 2 <= b /\ - go_last_probe <= b.
+Proof.
+  induction ps as [|p r IH]; intros prev l1 l2 a b C E.
+  - destruct l1 as [|x [|x' l1]]; discriminate.
+  - destruct (chain_down_cons _ _ _ C) as (C1 & C2 & C3 & C4). destruct l1 as [|x l1].
+    + injection E as -> -> _. lia.
+    + injection E as -> E. destruct (IH p l1 l2 a b C4 E) as (? & ? & ? & ?). lia.
+Qed.
+Local Close Scope Z_scope.
+
+(* extended reals, for "non-decreasing" including the infinite results *)
+Definition xr_le (a b : xreal) : Prop :=
+  match a, b with
+  | XFin p, XFin q => p <= q
+  | XInf true, (XFin _ | XInf _) => True
+  | (XFin _ | XInf _), XInf false => True
+  | _, _ => False
+  end.
+
 (* ================= generic algorithm, abstract F ================= *)
 Section GenericProofs.
   Variable F : Q -> Q.
   Variables bl bh : Q.
   Definition monotone := forall a b, a <= b -> F a <= F b.
+  Notation FZ z := (F (inject_Z z)).
 
-  (* ----- bracket expansion ----- *)
-  Lemma expand_right_some : forall fuel y hi delta a b,
-    0 < delta -> F hi < y -> expand_right F fuel y hi delta = Some (a, b) ->
-    F a < y /\ y <= F b /\ a < b /\ b - a <= qpow2 fuel * delta.
+  (* ----- the expansion is a walk over the F-independent probes ----- *)
+  Lemma expand_right_walk : forall fuel y hi delta,
+    expand_right F fuel y hi delta = walk_right F y hi (rprobes fuel hi delta) (rend fuel hi delta).
   Proof.
-    induction fuel as [|f IH]; intros y hi delta a b Hd Hhi E; simpl in E; [discriminate|].
-    pose proof (qpow2_ge1 f) as P.
-    destruct (Qltb (F (hi + delta)) y) eqn:C.
-    - apply Qltb_true in C. destruct (IH y (hi + delta) (2 * delta) a b ltac:(lra) C E) as (A1 & A2 & A3 & A4).
-      repeat split; try assumption. simpl.
-      assert (X : 2 * qpow2 f * delta == qpow2 f * (2 * delta)) by ring. rewrite X. assumption.
-    - apply Qltb_false in C. injection E as <- <-. repeat split; try assumption; try lra.
-      simpl. nra.
+    induction fuel as [|f IH]; intros y hi delta; cbn [expand_right rprobes rend]; [reflexivity|].
+    destruct (f64_round_Z (hi + delta)) as [h|]; [|reflexivity].
+    cbn [walk_right]. destruct (Qltb (FZ h) y); [apply IH | reflexivity].
+  Qed.
+  Lemma expand_left_walk : forall fuel y lo delta,
+    expand_left F fuel y lo delta = walk_left F y lo (lprobes fuel lo delta) (lend fuel lo delta).
+  Proof.
+    induction fuel as [|f IH]; intros y lo delta; cbn [expand_left lprobes lend]; [reflexivity|].
+    destruct (f64_round_Z (lo - delta)) as [h|]; [|reflexivity].
+    cbn [walk_left]. destruct (Qle_bool y (FZ h)); [apply IH | reflexivity].
   Qed.
 
-  Lemma expand_left_some : forall fuel y lo delta a b,
-    0 < delta -> y <= F lo -> expand_left F fuel y lo delta = Some (a, b) ->
-    F a < y /\ y <= F b /\ a < b /\ b - a <= qpow2 fuel * delta.
+  (* what the correspondence check executes IS the model of the Go loop, for every F and y *)
+  Theorem bracket_fast_correct : forall y, bracket_fast F y = bracket F go_expand_fuel y.
   Proof.
-    induction fuel as [|f IH]; intros y lo delta a b Hd Hlo E; simpl in E; [discriminate|].
-    pose proof (qpow2_ge1 f) as P.
-    destruct (Qle_bool y (F (lo - delta))) eqn:C.
-    - apply Qleb_true in C. destruct (IH y (lo - delta) (2 * delta) a b ltac:(lra) C E) as (A1 & A2 & A3 & A4).
-      repeat split; try assumption. simpl.
-      assert (X : 2 * qpow2 f * delta == qpow2 f * (2 * delta)) by ring. rewrite X. assumption.
-    - apply Qleb_false in C. injection E as <- <-. repeat split; try assumption; try lra.
-      simpl. nra.
+    intros y. unfold bracket_fast, bracket. destruct go_probes_closed_form as (E1 & E2 & E3 & E4).
+    destruct (goes_right F y).
+    - rewrite expand_right_walk, E1, E2. reflexivity.
+    - rewrite expand_left_walk, E3, E4. reflexivity.
+  Qed.
+  Theorem invcdf_core_fast_correct : forall k y, invcdf_core_fast F k y = invcdf_core F go_expand_fuel k y.
+  Proof. intros. unfold invcdf_core_fast, invcdf_core. rewrite bracket_fast_correct. reflexivity. Qed.
+
+  (* ----- walking to the right ----- *)
+  Lemma walk_right_found : forall ps y prev b lo hi,
+    FZ prev < y -> walk_right F y prev ps (BInf b) = BFound lo hi ->
+    FZ lo < y /\ y <= FZ hi /\ exists l1 l2, prev :: ps = l1 ++ lo :: hi :: l2.
+  Proof.
+    induction ps as [|p r IH]; intros y prev b lo hi Hp E; cbn [walk_right] in E; [discriminate|].
+    destruct (Qltb (FZ p) y) eqn:C.
+    - apply Qltb_true in C. destruct (IH y p b lo hi C E) as (A1 & A2 & l1 & l2 & A3).
+      repeat split; try assumption. exists (prev :: l1), l2. rewrite A3. reflexivity.
+    - apply Qltb_false in C. injection E as <- <-. repeat split; try assumption. exists [], r. reflexivity.
+  Qed.
+  Lemma walk_right_inf : forall ps y prev b r,
+    walk_right F y prev ps (BInf b) = r -> (forall lo hi, r <> BFound lo hi) ->
+    r = BInf b /\ forall p, In p ps -> FZ p < y.
+  Proof.
+    induction ps as [|p r IH]; intros y prev b res E N; cbn [walk_right] in E.
+    - split; [congruence | intros p []].
+    - destruct (Qltb (FZ p) y) eqn:C.
+      + apply Qltb_true in C. destruct (IH y p b res E N) as (A1 & A2). split; [assumption|].
+        intros p' [<-|H]; [assumption | apply A2; assumption].
+      + exfalso. apply (N prev p). congruence.
+  Qed.
+  Lemma walk_right_lo_ge : forall ps y prev b lo hi, chain_up prev ps = true ->
+    walk_right F y prev ps (BInf b) = BFound lo hi -> (prev <= lo)%Z.
+  Proof.
+    induction ps as [|p r IH]; intros y prev b lo hi Ch E; cbn [walk_right] in E; [discriminate|].
+    destruct (chain_up_cons _ _ _ Ch) as (C1 & _ & _ & C4). destruct (Qltb (FZ p) y).
+    - specialize (IH y p b lo hi C4 E). lia.
+    - injection E as <- <-. lia.
+  Qed.
+  Lemma walk_right_mono : forall ps y1 y2 prev b a1 b1 a2 b2, y1 <= y2 -> chain_up prev ps = true ->
+    walk_right F y1 prev ps (BInf b) = BFound a1 b1 -> walk_right F y2 prev ps (BInf b) = BFound a2 b2 ->
+    (a1 = a2 /\ b1 = b2) \/ (b1 <= a2)%Z.
+  Proof.
+    induction ps as [|p r IH]; intros y1 y2 prev b a1 b1 a2 b2 Hy Ch E1 E2; cbn [walk_right] in E1, E2; [discriminate|].
+    destruct (chain_up_cons _ _ _ Ch) as (C1 & _ & _ & C4).
+    destruct (Qltb (FZ p) y1) eqn:D1; destruct (Qltb (FZ p) y2) eqn:D2.
+    - apply (IH y1 y2 p b); assumption.
+    - apply Qltb_true in D1. apply Qltb_false in D2. lra.
+    - right. injection E1 as <- <-. apply (walk_right_lo_ge r y2 p b a2 b2 C4 E2).
+    - left. injection E1 as <- <-. injection E2 as <- <-. auto.
+  Qed.
+  Lemma walk_right_mono_inf : forall ps y1 y2 prev b, y1 <= y2 ->
+    walk_right F y1 prev ps (BInf b) = BInf b -> walk_right F y2 prev ps (BInf b) = BInf b.
+  Proof.
+    induction ps as [|p r IH]; intros y1 y2 prev b Hy E; cbn [walk_right] in *; [reflexivity|].
+    destruct (Qltb (FZ p) y1) eqn:D1; [|discriminate].
+    apply Qltb_true in D1. assert (D2 : Qltb (FZ p) y2 = true) by (apply Qltb_true; lra).
+    rewrite D2. apply (IH y1); assumption.
   Qed.
 
-  Lemma expand_right_none : monotone -> forall fuel y hi delta,
-    F hi < y -> expand_right F fuel y hi delta = None -> F (hi + (qpow2 fuel - 1) * delta) < y.
+  (* ----- walking to the left ----- *)
+  Lemma walk_left_found : forall ps y prev b lo hi,
+    y <= FZ prev -> walk_left F y prev ps (BInf b) = BFound lo hi ->
+    FZ lo < y /\ y <= FZ hi /\ exists l1 l2, prev :: ps = l1 ++ hi :: lo :: l2.
   Proof.
-    intros M. induction fuel as [|f IH]; intros y hi delta Hhi E; simpl in *.
-    - apply Qle_lt_trans with (F hi); [apply M; lra | assumption].
-    - destruct (Qltb (F (hi + delta)) y) eqn:C; [|discriminate].
-      apply Qltb_true in C. specialize (IH _ _ _ C E).
-      apply Qle_lt_trans with (F (hi + delta + (qpow2 f - 1) * (2 * delta))); [|assumption].
-      apply M. assert (X : hi + (2 * qpow2 f - 1) * delta == hi + delta + (qpow2 f - 1) * (2 * delta)) by ring.
-      rewrite X. apply Qle_refl.
+    induction ps as [|p r IH]; intros y prev b lo hi Hp E; cbn [walk_left] in E; [discriminate|].
+    destruct (Qle_bool y (FZ p)) eqn:C.
+    - apply Qleb_true in C. destruct (IH y p b lo hi C E) as (A1 & A2 & l1 & l2 & A3).
+      repeat split; try assumption. exists (prev :: l1), l2. rewrite A3. reflexivity.
+    - apply Qleb_false in C. injection E as <- <-. repeat split; try assumption. exists [], r. reflexivity.
+  Qed.
+  Lemma walk_left_inf : forall ps y prev b r,
+    walk_left F y prev ps (BInf b) = r -> (forall lo hi, r <> BFound lo hi) ->
+    r = BInf b /\ forall p, In p ps -> y <= FZ p.
+  Proof.
+    induction ps as [|p r IH]; intros y prev b res E N; cbn [walk_left] in E.
+    - split; [congruence | intros p []].
+    - destruct (Qle_bool y (FZ p)) eqn:C.
+      + apply Qleb_true in C. destruct (IH y p b res E N) as (A1 & A2). split; [assumption|].
+        intros p' [<-|H]; [assumption | apply A2; assumption].
+      + exfalso. apply (N p prev). congruence.
+  Qed.
+  Lemma walk_left_hi_le : forall ps y prev b lo hi, chain_down prev ps = true ->
+    walk_left F y prev ps (BInf b) = BFound lo hi -> (hi <= prev)%Z.
+  Proof.
+    induction ps as [|p r IH]; intros y prev b lo hi Ch E; cbn [walk_left] in E; [discriminate|].
+    destruct (chain_down_cons _ _ _ Ch) as (C1 & _ & _ & C4). destruct (Qle_bool y (FZ p)).
+    - specialize (IH y p b lo hi C4 E). lia.
+    - injection E as <- <-. lia.
+  Qed.
+  Lemma walk_left_mono : forall ps y1 y2 prev b a1 b1 a2 b2, y1 <= y2 -> chain_down prev ps = true ->
+    walk_left F y1 prev ps (BInf b) = BFound a1 b1 -> walk_left F y2 prev ps (BInf b) = BFound a2 b2 ->
+    (a1 = a2 /\ b1 = b2) \/ (b1 <= a2)%Z.
+  Proof.
+    induction ps as [|p r IH]; intros y1 y2 prev b a1 b1 a2 b2 Hy Ch E1 E2; cbn [walk_left] in E1, E2; [discriminate|].
+    destruct (chain_down_cons _ _ _ Ch) as (C1 & _ & _ & C4).
+    destruct (Qle_bool y1 (FZ p)) eqn:D1; destruct (Qle_bool y2 (FZ p)) eqn:D2.
+    - apply (IH y1 y2 p b); assumption.
+    - right. injection E2 as <- <-. apply (walk_left_hi_le r y1 p b a1 b1 C4 E1).
+    - apply Qleb_false in D1. apply Qleb_true in D2. lra.
+    - left. injection E1 as <- <-. injection E2 as <- <-. auto.
+  Qed.
+  Lemma walk_left_mono_inf : forall ps y1 y2 prev b, y1 <= y2 ->
+    walk_left F y2 prev ps (BInf b) = BInf b -> walk_left F y1 prev ps (BInf b) = BInf b.
+  Proof.
+    induction ps as [|p r IH]; intros y1 y2 prev b Hy E; cbn [walk_left] in *; [reflexivity|].
+    destruct (Qle_bool y2 (FZ p)) eqn:D2; [|discriminate].
+    apply Qleb_true in D2. assert (D1 : Qle_bool y1 (FZ p) = true) by (apply Qleb_true; lra).
+    rewrite D1. apply (IH y1 y2); assumption.
   Qed.
 
-  Lemma expand_left_none : monotone -> forall fuel y lo delta,
-    y <= F lo -> expand_left F fuel y lo delta = None -> y <= F (lo - (qpow2 fuel - 1) * delta).
+  Lemma walk_right_not_fuel : forall ps y prev b, walk_right F y prev ps (BInf b) <> BFuel.
+  Proof. induction ps as [|p r IH]; intros; cbn [walk_right]; [discriminate|]. destruct (Qltb _ _); [apply IH | discriminate]. Qed.
+  Lemma walk_left_not_fuel : forall ps y prev b, walk_left F y prev ps (BInf b) <> BFuel.
+  Proof. induction ps as [|p r IH]; intros; cbn [walk_left]; [discriminate|]. destruct (Qle_bool _ _); [apply IH | discriminate]. Qed.
+
+  (* with the fuel of the model the expansion always ends the way float64 does: a bracket or an overflow *)
+  Theorem go_fuel_enough : forall y, bracket F go_expand_fuel y <> BFuel.
   Proof.
-    intros M. induction fuel as [|f IH]; intros y lo delta Hlo E; simpl in *.
-    - apply Qle_trans with (F lo); [assumption | apply M; lra].
-    - destruct (Qle_bool y (F (lo - delta))) eqn:C; [|discriminate].
-      apply Qleb_true in C. specialize (IH _ _ _ C E).
-      apply Qle_trans with (F (lo - delta - (qpow2 f - 1) * (2 * delta))); [assumption|].
-      apply M. assert (X : lo - (2 * qpow2 f - 1) * delta == lo - delta - (qpow2 f - 1) * (2 * delta)) by ring.
-      rewrite X. apply Qle_refl.
+    intros y. rewrite <- bracket_fast_correct. unfold bracket_fast.
+    destruct (goes_right F y); [apply walk_right_not_fuel | apply walk_left_not_fuel].
   Qed.
 
-  (* the bracket found by doubling: F lo < y <= F hi; when the fuel runs out there is NO point with
-     the missing property within 2^fuel - 1 of the origin on that side *)
-  Theorem bracket_inv : monotone -> forall fuel y,
-    match bracket F fuel y with
-    | Some (lo, hi) => F lo < y /\ y <= F hi /\ lo < hi /\ hi - lo <= qpow2 fuel
-    | None => if goes_right F y then forall x, x <= qpow2 fuel - 1 -> F x < y
-              else forall x, - (qpow2 fuel - 1) <= x -> y <= F x
+  Local Notation LAST := (inject_Z go_last_probe).
+
+  (* the bracket found by doubling — NO hypothesis on F: F lo < y <= F hi, lo < hi neighbours in the probe
+     sequence (so the bracket is at most as wide as its distance from the origin, + 2), within the last
+     probes; an infinite result says that every probe on that side failed *)
+  Theorem bracket_spec : forall y,
+    match bracket F go_expand_fuel y with
+    | BFound lo hi => FZ lo < y /\ y <= FZ hi /\ (lo < hi)%Z /\ (- go_last_probe <= lo)%Z /\ (hi <= go_last_probe)%Z /\
+                      ((goes_right F y = true /\ 0 <= lo /\ hi <= 2 * lo + 2)%Z \/ (goes_right F y = false /\ hi <= 0 /\ 2 * hi - 2 <= lo)%Z)
+    | BInf false => goes_right F y = true /\ forall p, In p go_probes -> FZ p < y
+    | BInf true => goes_right F y = false /\ forall p, In p go_probes_neg -> y <= FZ p
+    | BFuel => False
     end.
   Proof.
-    intros M fuel y. unfold bracket, goes_right. destruct (Qltb (F 0) y) eqn:C.
-    - apply Qltb_true in C. destruct (expand_right F fuel y 0 1) as [[lo hi]|] eqn:E.
-      + destruct (expand_right_some fuel y 0 1 lo hi ltac:(lra) C E) as (A1 & A2 & A3 & A4).
-        repeat split; try assumption. lra.
-      + intros x Hx. pose proof (expand_right_none M _ _ _ _ C E) as N.
-        apply Qle_lt_trans with (F (0 + (qpow2 fuel - 1) * 1)); [apply M; lra | assumption].
-    - apply Qltb_false in C. destruct (expand_left F fuel y 0 1) as [[lo hi]|] eqn:E.
-      + destruct (expand_left_some fuel y 0 1 lo hi ltac:(lra) C E) as (A1 & A2 & A3 & A4).
-        repeat split; try assumption. lra.
-      + intros x Hx. pose proof (expand_left_none M _ _ _ _ C E) as N.
-        apply Qle_trans with (F (0 - (qpow2 fuel - 1) * 1)); [assumption | apply M; lra].
+    intros y. rewrite <- bracket_fast_correct. unfold bracket_fast.
+    destruct go_probes_chain as (U & D & _ & _).
+    destruct (goes_right F y) eqn:G; unfold goes_right in G.
+    - apply Qltb_true in G. destruct (walk_right F y 0%Z go_probes (BInf false)) as [lo hi|b|] eqn:E.
+      + destruct (walk_right_found _ _ _ _ _ _ G E) as (A1 & A2 & l1 & l2 & A3).
+        destruct (chain_up_adjacent _ _ _ _ _ _ U A3) as (? & ? & ? & ?).
+        repeat split; try assumption; try lia.
+      + destruct (walk_right_inf _ _ _ _ _ E ltac:(discriminate)) as (A1 & A2). injection A1 as ->. auto.
+      + exact (walk_right_not_fuel _ _ _ _ E).
+    - apply Qltb_false in G. destruct (walk_left F y 0%Z go_probes_neg (BInf true)) as [lo hi|b|] eqn:E.
+      + destruct (walk_left_found _ _ _ _ _ _ G E) as (A1 & A2 & l1 & l2 & A3).
+        destruct (chain_down_adjacent _ _ _ _ _ _ D A3) as (? & ? & ? & ?).
+        repeat split; try assumption; try lia.
+      + destruct (walk_left_inf _ _ _ _ _ E ltac:(discriminate)) as (A1 & A2). injection A1 as ->. auto.
+      + exact (walk_left_not_fuel _ _ _ _ E).
   Qed.
 
-  (* enough fuel: a point below with F < y and a point above with F >= y, both within 2^fuel - 1 *)
-  Theorem bracket_found : monotone -> forall fuel y a b,
-    - (qpow2 fuel - 1) <= a -> F a < y -> b <= qpow2 fuel - 1 -> y <= F b ->
-    exists lo hi, bracket F fuel y = Some (lo, hi).
+  (* for a non-decreasing F an overflow means that NO point up to 2^1023 (down to -2^1023) has the
+     missing property: the infinite result is never a wrong finite value *)
+  Theorem bracket_inv : monotone -> forall y,
+    match bracket F go_expand_fuel y with
+    | BFound lo hi => FZ lo < y /\ y <= FZ hi /\ (lo < hi)%Z
+    | BInf false => forall x, x <= LAST -> F x < y
+    | BInf true => forall x, - LAST <= x -> y <= F x
+    | BFuel => False
+    end.
   Proof.
-    intros M fuel y a b Ha Fa Hb Fb. pose proof (bracket_inv M fuel y) as B.
-    destruct (bracket F fuel y) as [[lo hi]|]; [eauto|].
-    destruct (goes_right F y).
-    - specialize (B b Hb). lra.
+    intros M y. pose proof (bracket_spec y) as B. destruct go_probes_chain as (_ & _ & L1 & L2).
+    destruct (bracket F go_expand_fuel y) as [lo hi|[|]|].
+    - destruct B as (? & ? & ? & _). auto.
+    - destruct B as (_ & B). intros x Hx. apply existsb_exists in L2. destruct L2 as (p & Hp & Ep).
+      apply Z.eqb_eq in Ep. subst p. apply Qle_trans with (FZ (- go_last_probe)%Z); [apply B; assumption|].
+      apply M. rewrite inject_Z_opp. assumption.
+    - destruct B as (_ & B). intros x Hx. apply existsb_exists in L1. destruct L1 as (p & Hp & Ep).
+      apply Z.eqb_eq in Ep. subst p. apply Qle_lt_trans with (FZ go_last_probe); [apply M; assumption | apply B; assumption].
+    - assumption.
+  Qed.
+
+  (* a point with F < y not below -2^1023 and a point with F >= y not above 2^1023: a bracket is found *)
+  Theorem bracket_found : monotone -> forall y a b,
+    - LAST <= a -> F a < y -> b <= LAST -> y <= F b ->
+    exists lo hi, bracket F go_expand_fuel y = BFound lo hi.
+  Proof.
+    intros M y a b Ha Fa Hb Fb. pose proof (bracket_inv M y) as B.
+    destruct (bracket F go_expand_fuel y) as [lo hi|[|]|]; [eauto | | | contradiction].
     - specialize (B a Ha). lra.
+    - specialize (B b Hb). lra.
   Qed.
 
   (* ----- bisection: the invariant holds after EVERY number of halvings ----- *)
@@ -162,20 +388,6 @@ Section GenericProofs.
         split; [assumption|]. split; [assumption|]. split; [|lra].
         assert (X : (x2 - x1) * (2 * qpow2 k) == 2 * ((x2 - x1) * qpow2 k)) by ring.
         rewrite X, A3. lra.
-  Qed.
-
-  (* ----- the whole numerical part ----- *)
-  Theorem invcdf_core_inv : monotone -> forall fuel k y lo hi x1 x2,
-    invcdf_core F fuel k y = Some ((lo, hi), (x1, x2)) ->
-    F x1 < y /\ y <= F x2 /\ x1 <= x2 /\ (x2 - x1) * qpow2 k <= qpow2 fuel.
-  Proof.
-    intros M fuel k y lo hi x1 x2 E. unfold invcdf_core in E.
-    pose proof (bracket_inv M fuel y) as B.
-    destruct (bracket F fuel y) as [[lo' hi']|]; [|discriminate].
-    destruct B as (B1 & B2 & B3 & B4).
-    pose proof (bisect_inv k y lo' hi' B1 B2 ltac:(lra)) as I.
-    destruct (bisect_bool F k y lo' hi') as [a b]. injection E as <- <- <- <-.
-    destruct I as (A1 & A2 & A3 & A4 & A5 & A6). repeat split; try assumption. rewrite A3. assumption.
   Qed.
 
   (* ----- special values (dist.go:123-144) ----- *)
@@ -212,63 +424,30 @@ Section GenericProofs.
       assert (D : Qeq_bool y 1 = false) by (apply Qeqb_false; lra). rewrite C, D. reflexivity.
   Qed.
 
-  (* for 0 < y < 1 the result is never NaN, never a panic: the upper end of a pair, or the
-     explicit out-of-fuel result *)
-  Theorem invcdf_generic_regular : monotone -> forall fuel k y, 0 < y -> y < 1 ->
-    (exists lo hi x1 x2, invcdf_core F fuel k y = Some ((lo, hi), (x1, x2)) /\
-        invcdf_generic F bl bh fuel k y = IVal (XFin x2) /\ F x1 < y /\ y <= F x2 /\ x1 <= x2 /\
-        (x2 - x1) * qpow2 k <= qpow2 fuel)
-    \/ (invcdf_core F fuel k y = None /\ invcdf_generic F bl bh fuel k y = INoBracket (negb (goes_right F y))).
+  (* for 0 < y < 1 and non-decreasing F the closure never returns NaN and never panics: it returns the
+     upper end x2 of a pair with F x1 < y <= F x2 that is (hi - lo) / 2^k wide, or +Inf when F < y all the
+     way up to 2^1023, or -Inf when F >= y all the way down to -2^1023 *)
+  Theorem invcdf_generic_regular : monotone -> forall k y, 0 < y -> y < 1 ->
+    (exists lo hi x1 x2, bracket F go_expand_fuel y = BFound lo hi /\
+        bisect_bool F k y (inject_Z lo) (inject_Z hi) = (x1, x2) /\
+        invcdf_generic F bl bh go_expand_fuel k y = IVal (XFin x2) /\ F x1 < y /\ y <= F x2 /\ x1 <= x2 /\
+        (x2 - x1) * qpow2 k == inject_Z hi - inject_Z lo)
+    \/ (invcdf_generic F bl bh go_expand_fuel k y = IVal (XInf false) /\ forall x, x <= LAST -> F x < y)
+    \/ (invcdf_generic F bl bh go_expand_fuel k y = IVal (XInf true) /\ forall x, - LAST <= x -> y <= F x).
   Proof.
-    intros M fuel k y H0 H1. unfold invcdf_generic.
-    destruct (invcdf_special_values fuel k y) as (_ & _ & _ & _ & _ & S). rewrite (S H0 H1).
-    destruct (invcdf_core F fuel k y) as [[[lo hi] [x1 x2]]|] eqn:E.
-    - left. exists lo, hi, x1, x2. destruct (invcdf_core_inv M _ _ _ _ _ _ _ E) as (A1 & A2 & A3 & A4). auto 10.
-    - right. auto.
-  Qed.
-  (* ----- the value returned by the ALGORITHM is non-decreasing in y (no hypothesis on F) ----- *)
-  Lemma expand_right_lo_ge : forall fuel y hi delta a b,
-    0 < delta -> expand_right F fuel y hi delta = Some (a, b) -> hi <= a.
-  Proof.
-    induction fuel as [|f IH]; intros y hi delta a b Hd E; simpl in E; [discriminate|].
-    destruct (Qltb (F (hi + delta)) y).
-    - specialize (IH y (hi + delta) (2 * delta) a b ltac:(lra) E). lra.
-    - injection E as <- <-. lra.
-  Qed.
-  Lemma expand_left_hi_le : forall fuel y lo delta a b,
-    0 < delta -> expand_left F fuel y lo delta = Some (a, b) -> b <= lo.
-  Proof.
-    induction fuel as [|f IH]; intros y lo delta a b Hd E; simpl in E; [discriminate|].
-    destruct (Qle_bool y (F (lo - delta))).
-    - specialize (IH y (lo - delta) (2 * delta) a b ltac:(lra) E). lra.
-    - injection E as <- <-. lra.
+    intros M k y H0 H1. unfold invcdf_generic.
+    destruct (invcdf_special_values go_expand_fuel k y) as (_ & _ & _ & _ & _ & S). rewrite (S H0 H1).
+    pose proof (bracket_inv M y) as B.
+    destruct (bracket F go_expand_fuel y) as [lo hi|[|]|]; [| right; right; auto | right; left; auto | contradiction].
+    left. destruct B as (B1 & B2 & B3).
+    assert (Hle : inject_Z lo <= inject_Z hi) by (rewrite <- Zle_Qle; lia).
+    pose proof (bisect_inv k y _ _ B1 B2 Hle) as I.
+    destruct (bisect_bool F k y (inject_Z lo) (inject_Z hi)) as [x1 x2] eqn:E.
+    destruct I as (A1 & A2 & A3 & A4 & A5 & A6). exists lo, hi, x1, x2. simpl. auto 10.
   Qed.
 
-  Lemma expand_right_mono : forall fuel y1 y2 hi delta a1 b1 a2 b2,
-    0 < delta -> y1 <= y2 ->
-    expand_right F fuel y1 hi delta = Some (a1, b1) -> expand_right F fuel y2 hi delta = Some (a2, b2) ->
-    (a1, b1) = (a2, b2) \/ b1 <= a2.
-  Proof.
-    induction fuel as [|f IH]; intros y1 y2 hi delta a1 b1 a2 b2 Hd Hy E1 E2; simpl in E1, E2; [discriminate|].
-    destruct (Qltb (F (hi + delta)) y1) eqn:C1; destruct (Qltb (F (hi + delta)) y2) eqn:C2.
-    - apply (IH y1 y2 (hi + delta) (2 * delta)); try assumption; lra.
-    - apply Qltb_true in C1. apply Qltb_false in C2. lra.
-    - right. injection E1 as <- <-. apply (expand_right_lo_ge f y2 (hi + delta) (2 * delta) a2 b2); [lra | assumption].
-    - left. congruence.
-  Qed.
-  Lemma expand_left_mono : forall fuel y1 y2 lo delta a1 b1 a2 b2,
-    0 < delta -> y1 <= y2 ->
-    expand_left F fuel y1 lo delta = Some (a1, b1) -> expand_left F fuel y2 lo delta = Some (a2, b2) ->
-    (a1, b1) = (a2, b2) \/ b1 <= a2.
-  Proof.
-    induction fuel as [|f IH]; intros y1 y2 lo delta a1 b1 a2 b2 Hd Hy E1 E2; simpl in E1, E2; [discriminate|].
-    destruct (Qle_bool y1 (F (lo - delta))) eqn:C1; destruct (Qle_bool y2 (F (lo - delta))) eqn:C2.
-    - apply (IH y1 y2 (lo - delta) (2 * delta)); try assumption; lra.
-    - right. injection E2 as <- <-. apply (expand_left_hi_le f y1 (lo - delta) (2 * delta) a1 b1); [lra | assumption].
-    - apply Qleb_false in C1. apply Qleb_true in C2. lra.
-    - left. congruence.
-  Qed.
-
+  (* ----- the value returned by the ALGORITHM is non-decreasing in y (no hypothesis on F),
+     infinite results included ----- *)
   Lemma bisect_mono : forall k y1 y2 lo hi, y1 <= y2 -> F lo < y1 -> y2 <= F hi -> lo <= hi ->
     snd (bisect_bool F k y1 lo hi) <= snd (bisect_bool F k y2 lo hi).
   Proof.
@@ -288,43 +467,76 @@ Section GenericProofs.
       + apply Qltb_false in C1. apply Qltb_false in C2. apply IH; try assumption; lra.
   Qed.
 
-  Theorem invcdf_generic_monotone_in_y : forall fuel k y1 y2 r1 r2,
-    0 < y1 -> y1 <= y2 -> y2 < 1 ->
-    invcdf_generic F bl bh fuel k y1 = IVal (XFin r1) -> invcdf_generic F bl bh fuel k y2 = IVal (XFin r2) ->
-    r1 <= r2.
+  (* two levels: the same bracket, or the lower level's bracket ends where the higher one's begins or before;
+     +Inf is inherited upwards, -Inf downwards *)
+  Lemma walk_right_cases : forall ps y prev b,
+    (exists lo hi, walk_right F y prev ps (BInf b) = BFound lo hi) \/ walk_right F y prev ps (BInf b) = BInf b.
   Proof.
-    intros fuel k y1 y2 r1 r2 H0 H12 H1 E1 E2. unfold invcdf_generic in E1, E2.
-    destruct (invcdf_special_values fuel k y1) as (_ & _ & _ & _ & _ & S1). rewrite (S1 H0 ltac:(lra)) in E1.
-    destruct (invcdf_special_values fuel k y2) as (_ & _ & _ & _ & _ & S2). rewrite (S2 ltac:(lra) H1) in E2.
-    unfold invcdf_core in E1, E2.
-    destruct (bracket F fuel y1) as [[lo1 hi1]|] eqn:B1; [|discriminate].
-    destruct (bracket F fuel y2) as [[lo2 hi2]|] eqn:B2; [|discriminate].
-    (* facts about the two brackets *)
-    assert (K1 : F lo1 < y1 /\ y1 <= F hi1 /\ lo1 < hi1).
-    { unfold bracket in B1. destruct (goes_right F y1) eqn:G; unfold goes_right in G.
-      - apply Qltb_true in G. destruct (expand_right_some fuel y1 0 1 lo1 hi1 ltac:(lra) G B1) as (? & ? & ? & _). auto.
-      - apply Qltb_false in G. destruct (expand_left_some fuel y1 0 1 lo1 hi1 ltac:(lra) G B1) as (? & ? & ? & _). auto. }
-    assert (K2 : F lo2 < y2 /\ y2 <= F hi2 /\ lo2 < hi2).
-    { unfold bracket in B2. destruct (goes_right F y2) eqn:G; unfold goes_right in G.
-      - apply Qltb_true in G. destruct (expand_right_some fuel y2 0 1 lo2 hi2 ltac:(lra) G B2) as (? & ? & ? & _). auto.
-      - apply Qltb_false in G. destruct (expand_left_some fuel y2 0 1 lo2 hi2 ltac:(lra) G B2) as (? & ? & ? & _). auto. }
-    destruct K1 as (K1a & K1b & K1c). destruct K2 as (K2a & K2b & K2c).
-    assert (D : (lo1, hi1) = (lo2, hi2) \/ hi1 <= lo2).
-    { unfold bracket in B1, B2. destruct (goes_right F y1) eqn:G1; destruct (goes_right F y2) eqn:G2; unfold goes_right in G1, G2.
-      - apply (expand_right_mono fuel y1 y2 0 1); try assumption; lra.
-      - apply Qltb_true in G1. apply Qltb_false in G2. lra.
-      - right. pose proof (expand_left_hi_le fuel y1 0 1 lo1 hi1 ltac:(lra) B1).
-        pose proof (expand_right_lo_ge fuel y2 0 1 lo2 hi2 ltac:(lra) B2). lra.
-      - apply (expand_left_mono fuel y1 y2 0 1); try assumption; lra. }
-    pose proof (bisect_inv k y1 lo1 hi1 K1a K1b ltac:(lra)) as I1.
-    pose proof (bisect_inv k y2 lo2 hi2 K2a K2b ltac:(lra)) as I2.
-    destruct D as [D|D].
-    - injection D as <- <-. pose proof (bisect_mono k y1 y2 lo1 hi1 H12 K1a K2b ltac:(lra)) as M.
-      destruct (bisect_bool F k y1 lo1 hi1) as [u1 u2]. destruct (bisect_bool F k y2 lo1 hi1) as [v1 v2].
-      simpl in M. injection E1 as <-. injection E2 as <-. assumption.
-    - destruct (bisect_bool F k y1 lo1 hi1) as [u1 u2]. destruct (bisect_bool F k y2 lo2 hi2) as [v1 v2].
-      injection E1 as <-. injection E2 as <-.
-      destruct I1 as (_ & _ & _ & _ & _ & I1). destruct I2 as (_ & _ & _ & I2 & I2' & _). lra.
+    induction ps as [|p r IH]; intros y prev b; cbn [walk_right]; [right; reflexivity|].
+    destruct (Qltb (FZ p) y); [apply IH | left; eauto].
+  Qed.
+  Lemma walk_left_cases : forall ps y prev b,
+    (exists lo hi, walk_left F y prev ps (BInf b) = BFound lo hi) \/ walk_left F y prev ps (BInf b) = BInf b.
+  Proof.
+    induction ps as [|p r IH]; intros y prev b; cbn [walk_left]; [right; reflexivity|].
+    destruct (Qle_bool y (FZ p)); [apply IH | left; eauto].
+  Qed.
+
+  Lemma bracket_mono : forall y1 y2, y1 <= y2 ->
+    match bracket F go_expand_fuel y1, bracket F go_expand_fuel y2 with
+    | BFound a1 b1, BFound a2 b2 => (a1 = a2 /\ b1 = b2) \/ (b1 <= a2)%Z
+    | BInf false, r2 => r2 = BInf false
+    | r1, BInf true => r1 = BInf true
+    | _, _ => True
+    end.
+  Proof.
+    intros y1 y2 Hy. rewrite <- !bracket_fast_correct. unfold bracket_fast.
+    destruct go_probes_chain as (U & D & _ & _).
+    destruct (goes_right F y1) eqn:G1; destruct (goes_right F y2) eqn:G2; unfold goes_right in G1, G2; cbv iota.
+    - destruct (walk_right_cases go_probes y1 0%Z false) as [(a1 & b1 & E1)|E1];
+      destruct (walk_right_cases go_probes y2 0%Z false) as [(a2 & b2 & E2)|E2]; rewrite E1, E2; cbv iota.
+      + apply (walk_right_mono go_probes y1 y2 0%Z false); assumption.
+      + exact I.
+      + rewrite (walk_right_mono_inf go_probes y1 y2 0%Z false Hy E1) in E2. discriminate E2.
+      + reflexivity.
+    - apply Qltb_true in G1. apply Qltb_false in G2. lra.
+    - destruct (walk_left_cases go_probes_neg y1 0%Z true) as [(a1 & b1 & E1)|E1];
+      destruct (walk_right_cases go_probes y2 0%Z false) as [(a2 & b2 & E2)|E2]; rewrite E1, E2; cbv iota.
+      + right. pose proof (walk_left_hi_le _ _ _ _ _ _ D E1). pose proof (walk_right_lo_ge _ _ _ _ _ _ U E2). lia.
+      + exact I.
+      + exact I.
+      + exact I.
+    - destruct (walk_left_cases go_probes_neg y1 0%Z true) as [(a1 & b1 & E1)|E1];
+      destruct (walk_left_cases go_probes_neg y2 0%Z true) as [(a2 & b2 & E2)|E2]; rewrite E1, E2; cbv iota.
+      + apply (walk_left_mono go_probes_neg y1 y2 0%Z true); assumption.
+      + rewrite (walk_left_mono_inf go_probes_neg y1 y2 0%Z true Hy E2) in E1. discriminate E1.
+      + exact I.
+      + reflexivity.
+  Qed.
+
+  Theorem invcdf_generic_monotone_in_y : forall k y1 y2, 0 < y1 -> y1 <= y2 -> y2 < 1 ->
+    exists r1 r2, invcdf_generic F bl bh go_expand_fuel k y1 = IVal r1 /\
+                  invcdf_generic F bl bh go_expand_fuel k y2 = IVal r2 /\ xr_le r1 r2.
+  Proof.
+    intros k y1 y2 H0 H12 H1. unfold invcdf_generic.
+    destruct (invcdf_special_values go_expand_fuel k y1) as (_ & _ & _ & _ & _ & S1). rewrite (S1 H0 ltac:(lra)).
+    destruct (invcdf_special_values go_expand_fuel k y2) as (_ & _ & _ & _ & _ & S2). rewrite (S2 ltac:(lra) H1).
+    pose proof (bracket_mono y1 y2 H12) as BM.
+    pose proof (bracket_spec y1) as P1. pose proof (bracket_spec y2) as P2.
+    destruct (bracket F go_expand_fuel y1) as [lo1 hi1|[|]|]; destruct (bracket F go_expand_fuel y2) as [lo2 hi2|[|]|];
+      cbv iota in BM; try contradiction; try (discriminate BM);
+      try (eexists; eexists; split; [reflexivity|]; split; [reflexivity|]; exact I).
+    destruct P1 as (K1a & K1b & K1c & _). destruct P2 as (K2a & K2b & K2c & _).
+    assert (L1 : inject_Z lo1 <= inject_Z hi1) by (rewrite <- Zle_Qle; lia).
+    assert (L2 : inject_Z lo2 <= inject_Z hi2) by (rewrite <- Zle_Qle; lia).
+    pose proof (bisect_inv k y1 _ _ K1a K1b L1) as I1. pose proof (bisect_inv k y2 _ _ K2a K2b L2) as I2.
+    eexists. eexists. split; [reflexivity|]. split; [reflexivity|]. cbn [xr_le].
+    destruct BM as [[<- <-]|BM].
+    - apply bisect_mono; assumption.
+    - destruct (bisect_bool F k y1 (inject_Z lo1) (inject_Z hi1)) as [u1 u2].
+      destruct (bisect_bool F k y2 (inject_Z lo2) (inject_Z hi2)) as [v1 v2]. cbn [snd].
+      destruct I1 as (_ & _ & _ & _ & _ & I1). destruct I2 as (_ & _ & _ & I2 & I2' & _).
+      rewrite Zle_Qle in BM. lra.
   Qed.
 End GenericProofs.
 
@@ -478,26 +690,56 @@ Proof.
   pose proof (qpow2_ge1 k). rewrite <- A3. apply Qmult_lt_compat_r; lra.
 Qed.
 
-(* the complete generic routine on a piecewise cdf: for 0 < y < 1 it returns a finite x2 >= the
-   quantile, closer than 2^fuel / 2^k — or reports that the fuel did not suffice *)
-Theorem invcdf_generic_pw : forall pw bl bh fuel k y, pw_wf pw -> 0 < y -> y < 1 ->
-  (exists x2 q, invcdf_generic (pw_cdf pw) bl bh fuel k y = IVal (XFin x2) /\ pw_quantile pw y = Some q /\
-                q <= x2 /\ (x2 - q) * qpow2 k < qpow2 fuel)
-  \/ (exists neg, invcdf_generic (pw_cdf pw) bl bh fuel k y = INoBracket neg).
+(* the complete generic routine on a piecewise cdf, in terms of the quantile q (smallest x with cdf x >= y):
+   - q within (-2^1023, 2^1023]: a finite x2 >= q, closer to q than (|q| + 2) / 2^k after k halvings
+     (the bracket found by doubling is at most as wide as its distance from the origin, + 2);
+   - q beyond 2^1023: +Inf;  q at or below -2^1023: -Inf  (float64 cannot bracket it: dist.go:163-167) *)
+Theorem invcdf_generic_pw_spec : forall pw bl bh k y q, pw_wf pw -> 0 < y -> y < 1 -> pw_quantile pw y = Some q ->
+  (- inject_Z go_last_probe < q -> q <= inject_Z go_last_probe ->
+     exists x2, invcdf_generic (pw_cdf pw) bl bh go_expand_fuel k y = IVal (XFin x2) /\
+                q <= x2 /\ (x2 - q) * qpow2 k < Qabs q + 2) /\
+  (inject_Z go_last_probe < q -> invcdf_generic (pw_cdf pw) bl bh go_expand_fuel k y = IVal (XInf false)) /\
+  (q <= - inject_Z go_last_probe -> invcdf_generic (pw_cdf pw) bl bh go_expand_fuel k y = IVal (XInf true)).
 Proof.
-  intros pw bl bh fuel k y W H0 H1.
-  destruct (invcdf_generic_regular (pw_cdf pw) bl bh (pw_cdf_monotone pw W) fuel k y H0 H1)
-    as [(lo & hi & x1 & x2 & E & R & A1 & A2 & A3 & A4) | (E & R)].
-  - left. destruct (galois pw y W H0 ltac:(lra)) as (q & Eq & G). exists x2, q.
-    split; [assumption|]. split; [assumption|].
+  intros pw bl bh k y q W H0 H1 Eq.
+  destruct (galois pw y W H0 ltac:(lra)) as (q' & Eq' & G). rewrite Eq in Eq'. injection Eq' as <-.
+  pose proof (pw_cdf_monotone pw W) as M.
+  assert (LP : 0 < inject_Z go_last_probe) by reflexivity.
+  pose proof (bracket_spec (pw_cdf pw) y) as BS.
+  destruct (invcdf_generic_regular (pw_cdf pw) bl bh M k y H0 H1)
+    as [(lo & hi & x1 & x2 & EB & EBi & R & A1 & A2 & A3 & A4) | [(R & A) | (R & A)]].
+  - rewrite EB in BS. destruct BS as (B1 & B2 & B3 & B4 & B5 & B6).
     assert (Q1 : x1 < q). { apply Qnot_le_lt. intro C. apply G in C. lra. }
-    assert (Q2 : q <= x2) by (apply G; assumption). split; [assumption|].
-    pose proof (qpow2_ge1 k). apply Qlt_le_trans with ((x2 - x1) * qpow2 k); [|assumption].
-    apply Qmult_lt_compat_r; lra.
-  - right. eauto.
+    assert (Q2 : q <= x2) by (apply G; assumption).
+    assert (Qlo : inject_Z lo < q). { apply Qnot_le_lt. intro C. apply G in C. lra. }
+    assert (Qhi : q <= inject_Z hi) by (apply G; assumption).
+    assert (L4 : - inject_Z go_last_probe <= inject_Z lo) by (rewrite <- inject_Z_opp, <- Zle_Qle; assumption).
+    assert (L5 : inject_Z hi <= inject_Z go_last_probe) by (rewrite <- Zle_Qle; assumption).
+    split; [|split].
+    + intros _ _. exists x2. split; [assumption|]. split; [assumption|].
+      pose proof (qpow2_ge1 k) as P.
+      apply Qlt_le_trans with ((x2 - x1) * qpow2 k); [apply Qmult_lt_compat_r; lra|]. rewrite A4.
+      destruct B6 as [(_ & C1 & C2) | (_ & C1 & C2)].
+      * rewrite Zle_Qle in C1, C2. rewrite inject_Z_plus, inject_Z_mult in C2.
+        assert (0 <= q) by (change (inject_Z 0) with 0 in C1; lra). rewrite Qabs_pos by assumption.
+        change (inject_Z 2) with 2 in C2. lra.
+      * rewrite Zle_Qle in C1, C2. unfold Z.sub in C2. rewrite inject_Z_plus, inject_Z_mult in C2.
+        rewrite inject_Z_opp in C2. change (inject_Z 0) with 0 in C1. change (inject_Z 2) with 2 in C2.
+        assert (q <= 0) by lra. rewrite Qabs_neg by assumption. lra.
+    + intro C. lra.
+    + intro C. lra.
+  - split; [|split].
+    + intros _ C. specialize (A q C). pose proof (proj1 (G q) ltac:(lra)). lra.
+    + intros _. assumption.
+    + intro C. specialize (A q ltac:(lra)). pose proof (proj1 (G q) ltac:(lra)). lra.
+  - assert (N : q <= - inject_Z go_last_probe) by (apply G; apply A; lra).
+    split; [|split].
+    + intros C _. lra.
+    + intro C. lra.
+    + intros _. assumption.
 Qed.
 
-(* with the break points inside (-(2^fuel - 1), 2^fuel - 1] the fuel always suffices *)
+(* below every break point the cdf is 0, from the last one on it is 1 *)
 Lemma pw_cdf_below : forall pw x, pw_wf pw -> (forall k, In k pw -> x < fst (fst k)) -> pw_cdf pw x == 0.
 Proof.
   intros [|[[x0 l0] v0] r] x W H; simpl in *; [contradiction|].
@@ -522,20 +764,20 @@ Proof.
   intros k Hk. apply H. right. assumption.
 Qed.
 
-Theorem invcdf_generic_pw_total : forall pw bl bh fuel k y, pw_wf pw -> 0 < y -> y < 1 ->
-  (forall kn, In kn pw -> - (qpow2 fuel - 1) < fst (fst kn) /\ fst (fst kn) <= qpow2 fuel - 1) ->
-  exists x2 q, invcdf_generic (pw_cdf pw) bl bh fuel k y = IVal (XFin x2) /\ pw_quantile pw y = Some q /\
-               q <= x2 /\ (x2 - q) * qpow2 k < qpow2 fuel.
+(* with every break point inside (-2^1023, 2^1023] the routine returns a finite value for every 0 < y < 1 *)
+Theorem invcdf_generic_pw_total : forall pw bl bh k y, pw_wf pw -> 0 < y -> y < 1 ->
+  (forall kn, In kn pw -> - inject_Z go_last_probe < fst (fst kn) /\ fst (fst kn) <= inject_Z go_last_probe) ->
+  exists x2 q, invcdf_generic (pw_cdf pw) bl bh go_expand_fuel k y = IVal (XFin x2) /\ pw_quantile pw y = Some q /\
+               q <= x2 /\ (x2 - q) * qpow2 k < Qabs q + 2.
 Proof.
-  intros pw bl bh fuel k y W H0 H1 Hk.
-  destruct (invcdf_generic_pw pw bl bh fuel k y W H0 H1) as [R | (neg & R)]; [assumption|]. exfalso.
-  assert (A : pw_cdf pw (- (qpow2 fuel - 1)) == 0) by (apply pw_cdf_below; [assumption | intros kn Hkn; apply Hk; assumption]).
-  assert (B : pw_cdf pw (qpow2 fuel - 1) == 1) by (apply pw_cdf_above; [assumption | intros kn Hkn; apply Hk; assumption]).
-  destruct (bracket_found (pw_cdf pw) (pw_cdf_monotone pw W) fuel y (- (qpow2 fuel - 1)) (qpow2 fuel - 1)
-              ltac:(lra) ltac:(lra) ltac:(lra) ltac:(lra)) as (lo & hi & E).
-  unfold invcdf_generic in R.
-  destruct (invcdf_special_values (pw_cdf pw) bl bh fuel k y) as (_ & _ & _ & _ & _ & S). rewrite (S H0 H1) in R.
-  unfold invcdf_core in R. rewrite E in R. destruct (bisect_bool (pw_cdf pw) k y lo hi). discriminate.
+  intros pw bl bh k y W H0 H1 Hk.
+  destruct (galois pw y W H0 ltac:(lra)) as (q & Eq & G).
+  assert (A : pw_cdf pw (- inject_Z go_last_probe) == 0) by (apply pw_cdf_below; [assumption | intros kn Hkn; apply Hk; assumption]).
+  assert (B : pw_cdf pw (inject_Z go_last_probe) == 1) by (apply pw_cdf_above; [assumption | intros kn Hkn; apply Hk; assumption]).
+  assert (Q1 : - inject_Z go_last_probe < q). { apply Qnot_le_lt. intro C. apply G in C. lra. }
+  assert (Q2 : q <= inject_Z go_last_probe) by (apply G; lra).
+  destruct (invcdf_generic_pw_spec pw bl bh k y q W H0 H1 Eq) as (S & _ & _).
+  destruct (S Q1 Q2) as (x2 & R1 & R2 & R3). exists x2, q. auto.
 Qed.
 
 (* the decidable well-formedness test run by the check implies the predicate *)
